@@ -3,7 +3,7 @@
 import json, subprocess
 
 HOOK_COMMITS = ["ac08067"]
-FIX_COMMITS = ["ee1d815", "296be57", "098316b", "7098e6b", "bcffdd6", "589a9d1", "787a52b", "01dcc1c"]
+FIX_COMMITS = ["ee1d815", "296be57", "098316b", "7098e6b", "bcffdd6", "589a9d1", "787a52b", "01dcc1c", "13be19f"]
 
 # id -> (technique, level text, level note, design ref)
 CHECKS = {
@@ -34,6 +34,9 @@ CHECKS = {
  "C16": ("bounded-exhaustive enumeration of calling-convention declarations (E1); ABI strings read with syn from the unmodified output, acceptance by rustc on i686-pc-windows-msvc",
          "Every choice of convention (absent, the seven names, an invalid name) for a virtual function and independently for an address-bound impl function, every receiver form, inheritance depth 1..3 with the slot re-declared at each level, with and without placeholder slots: the ABI string of every vftable slot at every level, of placeholder slots, and of the wrapper's function-pointer type must be the declared name or the receiver-based default; invalid names must be rejected; every accepted output is compiled unmodified for i686-pc-windows-msvc.",
          "syn's reading of `extern \"..\"` strings; rustc nightly's ABI table for the i686 msvc target.", "DESIGN.md §6 C16"),
+ "C17": ("bounded-exhaustive enumeration of visibility x marker x doc-comment assignments (E1); syn inspection of every emitted item",
+         "Every pub/private assignment over seven item positions x every subset of the four markers on a plain type (and marker subsets on a vftable type and an enum), and every assignment of {none, one line, multi-line with empty lines} docs to seven positions, with a derived type inheriting documented members: visibility of every emitted type/field/method/accessor/slot, privacy of generated fields and placeholder slots, exact derive sets, packed-without-align repr, and #[doc] attributes line for line on the counterparts and on no other item.",
+         "Enum variants are not among the counterparts the statement lists; their docs are only required not to land elsewhere.", "DESIGN.md §6 C17"),
 }
 
 NOT_YET = {
